@@ -1,6 +1,6 @@
 """API-level LYB round-trip law (harness/api_lybrt.c): generated schemas and trees — large values around the chunk size,
 deep nesting, many siblings, engineered truncated-hash collisions — under every with-defaults print mode."""
-import os, string
+import json, os, string
 from vlib import paths
 from vlib.proto import hexs, unhex
 from checks import lybhash
@@ -159,6 +159,12 @@ def gen_cases(cx):
         for wd in (wds or WDS):
             m = dict(meta); m["wd"] = wd
             cases.append((yang, wd, spec_str(items), m))
+
+    # 0. corpus (hand seeds, past failures)
+    fn = os.path.join(paths.CORPUS, "lyb", "api.json")
+    if os.path.exists(fn):
+        for c in json.load(open(fn)):
+            add(c["yang"], [(p, v) for p, v in c["items"]], c["meta"], wds=c.get("wds"))
 
     # 1. random schemas / trees under every with-defaults mode
     for _ in range(cx.n(120, 1000)):
